@@ -584,6 +584,26 @@ func genHashScenario(r *rand.Rand) *Scenario {
 		hs.Orders = append(hs.Orders, groupRandomly(r, order))
 	}
 
+	if chance(r, 0.35) {
+		// the process had registered something else (any pool members, possibly some of the set) and called
+		// GobTypesHashReset before it registered the set: the fingerprint is that of the set
+		var before []byte
+
+		for _, m := range perm[:1+r.IntN(len(hashPool))] {
+			if chance(r, 0.5) {
+				before = append(before, byte('0'+m))
+			}
+		}
+
+		pre := "R|"
+		if len(before) > 0 {
+			pre = groupRandomly(r, before) + "|R|"
+		}
+
+		hs.Orders[2] = pre + hs.Orders[2]
+	}
+
+	// (Orders[0] never contains a reset)
 	sup := []byte(strings.ReplaceAll(hs.Orders[0], "|", ""))
 	sup = append(sup, byte('0'+perm[k]))
 	r.Shuffle(len(sup), func(a, b int) { sup[a], sup[b] = sup[b], sup[a] })
@@ -656,6 +676,8 @@ func runHash(sc *Scenario, out *RunOut) {
 
 		if i == 0 {
 			first = h
+		} else if h != first && strings.Contains(o, "R") {
+			out.violate("C14.H1", "hash-after-reset-is-not-that-of-the-registered-set", "registration order %q gives types hash %s; a process that registers the same type set after GobTypesHashReset (%q, R = reset) gives %s", hs.Orders[0], first, o, h)
 		} else if h != first {
 			out.violate("C14.H1", "hash-depends-on-order-or-multiplicity", "registration order %q gives types hash %s, order %q of the same type set gives %s", hs.Orders[0], first, o, h)
 		}
